@@ -399,6 +399,56 @@ theorem plainShape (tr : Trace st i s) (hsk : fitSkipped tr.s0.row = true) : Pla
     · intro hm; rw [f7 hm] at hmb; cases hmb
     · intro hm; rw [f8 hm] at hmw; cases hmw
 
+/-- (batch 8) an FCB / FDB list value has one item for every element of the operand text -/
+theorem list_count (tr : Trace st i s) (hk : tr.o.kind = .pseudo) :
+    ∀ hs, (tr.o.value = .multiByte hs ∨ tr.o.value = .multiWord hs) →
+      hs.length = (listElems tr.o.text).length := by
+  intro hs hm
+  obtain ⟨txt, hcr⟩ := tr.parsed.2
+  have hk0 : tr.s0.operand.kind = .pseudo := (resolveOperand_kind_pseudo tr.hres).1 hk
+  have hp := (createOperand_kind_rev hcr).1 hk0
+  have e := resolveOperand_multi_keep tr.hres hk0 (by rcases hm with hm | hm <;> rw [hm] <;> simp [Value.isMultiByte, Value.isMultiWord])
+  rw [e] at hm ⊢
+  exact (createOperand_multi_count hcr hp hs hm).1
+
+/-- (batch 8) the rows `fitWidth` skips carry no list: the list pass leaves them alone -/
+theorem plain_nolist (tr : Trace st i s) (hsk : fitSkipped tr.s0.row = true) :
+    (∀ hs, tr.p.additional ≠ .multiByte hs) ∧ (∀ hs, tr.p.additional ≠ .multiWord hs) := by
+  rcases (tr.plainShape hsk).nolist with e | e
+  · have key : ∀ hs, (tr.o.value = .multiByte hs ∨ tr.o.value = .multiWord hs) → False := by
+      intro hs hm
+      have sh1 := tr.shape1
+      have hres := tr.hres
+      obtain ⟨_, _, _, _, _, f6, _, _⟩ := rowFacts_multi tr.rowFacts
+      obtain ⟨txt, hcr⟩ := tr.parsed.2
+      obtain ⟨k1, k2, _, _⟩ := createOperand_kind hcr
+      cases hsp : tr.s0.row.isSpecial with
+      | true =>
+        have hp := f6 hsp
+        have hk0 := k2 hp hsp
+        have hk : tr.o.kind = .special := by
+          rcases resolveOperand_kind hres with h' | ⟨h', _⟩
+          · rw [h']; exact hk0
+          · rw [hk0] at h'; cases h'
+        have := sh1.nov (.inl hk)
+        rw [this] at hm
+        rcases hm with hm | hm <;> cases hm
+      | false =>
+        unfold fitSkipped at hsk
+        rw [hsp] at hsk
+        simp only [Bool.or_false, Bool.and_eq_true, Bool.not_eq_true', Bool.or_eq_false_iff] at hsk
+        obtain ⟨hp, hmb, hmw⟩ := hsk
+        have hk0 := k1 hp
+        have e := resolveOperand_multi_keep hres hk0
+          (by rcases hm with hm | hm <;> rw [hm] <;> simp [Value.isMultiByte, Value.isMultiWord])
+        rw [e] at hm
+        have := (createOperand_multi_count hcr hp hs hm).2
+        rw [hmb, hmw] at this
+        cases this
+    rw [e]
+    exact ⟨fun hs hh => key hs (.inl hh), fun hs hh => key hs (.inr hh)⟩
+  · exact e
+
 end Trace
 
 /-- every statement that enters `fix_addresses` has a number for an address -/
@@ -408,7 +458,7 @@ theorem Stages.addr4_numeric {fs : Files} {lines : List Str} {a : Assembly} (st 
     intro s3 hs3
     obtain ⟨j, hj⟩ := List.mem_iff_getElem?.mp hs3
     obtain ⟨s4, hs4, _⟩ := (assignAddrs_pw st.haddr).get hj
-    obtain ⟨s, hs, _⟩ := (fixAll_pw st.hfix).get hs4
+    obtain ⟨s, hs, _⟩ := (fixAllL_pw st.hfix).get hs4
     obtain ⟨tr⟩ := st.trace hs
     have : tr.s3 = s3 := by
       have := tr.h3; rw [hj] at this; exact (Option.some.inj this).symm
